@@ -457,6 +457,31 @@ func genCliResp(p *prng, thorough bool, w *bufio.Writer) {
 			s.finale("close")
 		}
 	}
+	// a response that arrives for a request its caller has given up (the timeout resets the stream and the client forgets
+	// it) — whole or continued in CONTINUATION frames, with and without body and trailers: its header blocks still count
+	// for the connection's HPACK context, so the response after it, which refers to the entries they inserted, must be
+	// delivered intact (F85: such blocks used to be dropped undecoded)
+	for cut := -1; cut < 12; cut += 2 {
+		for _, withBody := range []bool{false, true} {
+			s := newScn(w, p.fork(), 3, 100)
+			t1, sid1 := s.req(reqSpec{path: "/given-up"})
+			t2, sid2 := s.req(reqSpec{path: "/kept"})
+			s.timeout(t1)
+			s.read(t1)
+			r := cli_respSpec{status: "200", hdrs: []cli_kv{{k: "x-late", v: "inserted by a response nobody reads"}, {k: "etag", v: "late"}}, padH: -1, padD: -1}
+			if withBody {
+				r.body = []byte("late")
+				r.trailers = []cli_kv{{k: "x-late-t", v: "a trailer entry"}}
+			}
+			if cut >= 0 {
+				r.cuts, r.tcuts = []int{cut}, []int{cut / 2}
+			}
+			s.frames(s.render(sid1, r)...)
+			s.frames(s.render(sid2, cli_respSpec{status: "200", hdrs: []cli_kv{{k: "x-late", v: "inserted by a response nobody reads"}, {k: "etag", v: "late"}, {k: "x-late-t", v: "a trailer entry"}}, padH: -1, padD: -1})...)
+			s.read(t2)
+			s.finale("close")
+		}
+	}
 	// ... and cut twice or three times (HEADERS + several CONTINUATION frames), on a response with a body (the stream ends on
 	// DATA) and on one without (END_STREAM rides on the HEADERS frame and takes effect with the block's last frame)
 	for c1 := 1; c1 < 22; c1 += 3 {
